@@ -96,3 +96,8 @@ Proof. repeat split; reflexivity. Qed.
 From SymfcG Require Import SkelSolvers SkelMat SkelPerm.
 Theorem c11_module_skeletons_in_force : SkelSolvers_as_recorded = true /\ SkelMat_as_recorded = true /\ SkelPerm_as_recorded = true.
 Proof. repeat split; reflexivity. Qed.
+
+(** Further recorded sources this property's statement depends on (one object or separately, fast or reference coset projectors, either eigen-solver path): whole-function / skeleton match, regenerated on every run. *)
+From SymfcG Require Import ShapesBasis SkelBasis ShapesCoset SkelEig ShapesAuxEig SkelIdx.
+Theorem c11_recorded_sources4_in_force : ShapesBasis_as_recorded = true /\ SkelBasis_as_recorded = true /\ ShapesCoset_as_recorded = true /\ SkelEig_as_recorded = true /\ ShapesAuxEig_as_recorded = true /\ SkelIdx_as_recorded = true.
+Proof. repeat split; reflexivity. Qed.
